@@ -465,3 +465,71 @@ def doc_frags_frame(tier):
                         "detail": [f"{rel}:{ln}: {what} on the caller's fragment list" for (ln, what) in bad] or
                         "the caller's fragment list is not modified"})
     return out
+
+
+# ----------------------------------------------------------------------------------------------- import references
+# DiagLayer._resolve_odxlinks: objects of imported ECU-SHARED-DATA layers are referenceable from the importing layer as
+# if they were defined there - and only from there: the database handed in is not modified (frame), so that a sibling
+# layer of the same container that imports nothing cannot bind to them.
+from odxtools.diaglayers.diaglayer import DiagLayer  # noqa: E402
+from odxtools.diaglayers.diaglayertype import DiagLayerType  # noqa: E402
+
+F_CONT, F_A, F_B, F_SDC, F_SD = (OdxDocFragment("cont", DocType.CONTAINER), OdxDocFragment("A", DocType.LAYER),
+                                 OdxDocFragment("B", DocType.LAYER), OdxDocFragment("sdcont", DocType.CONTAINER),
+                                 OdxDocFragment("SD", DocType.LAYER))
+
+
+class GhostLayerRaw:
+
+    def __init__(self, name, frags, kind, import_refs, own):
+        self.short_name = name
+        self.odx_id = OdxLinkId(name, frags)
+        self.variant_type = kind
+        self.import_refs = import_refs
+        self.own = own
+        self.resolved_with = None
+
+    def _build_odxlinks(self):
+        return dict(self.own)
+
+    def _resolve_odxlinks(self, odxlinks):
+        self.resolved_with = odxlinks
+
+
+def _layer(raw):
+    L = DiagLayer.__new__(DiagLayer)
+    L.diag_layer_raw = raw
+    return L
+
+
+@harness(props=["C10"], strength="B", family=lambda t, s: [{"n_imports": n} for n in (0, 1)],
+         bound="an importing layer and a sibling in one container, one ECU-SHARED-DATA layer in another container; "
+         "presence of the imported object and of a same-named local object symbolic",
+         functions=[DiagLayer._resolve_odxlinks, OdxLinkDatabase.update, OdxLinkDatabase.resolve_lenient],
+         covers=["resolved"])
+def import_refs_extend_the_importing_layer_only(n_imports):
+    """imported objects are visible from the importing layer's fragments while its references are resolved; the
+    database itself is unchanged, a sibling layer does not see them; local definitions win"""
+    db = OdxLinkDatabase()
+    shared = Thing("defined by the shared-data layer")
+    local = Thing("defined by the importing layer")
+    has_local = H.bool("importing_layer_defines_the_same_id")
+    sd = _layer(GhostLayerRaw("SD", [F_SDC, F_SD], DiagLayerType.ECU_SHARED_DATA, [],
+                              {OdxLinkId("X", [F_SDC, F_SD]): shared}))
+    a = _layer(GhostLayerRaw("A", [F_CONT, F_A], DiagLayerType.BASE_VARIANT,
+                             [OdxLinkRef("SD", [F_SDC, F_SD])] if n_imports else [], {}))
+    db.update({sd.diag_layer_raw.odx_id: sd, OdxLinkId("X", [F_SDC, F_SD]): shared, a.diag_layer_raw.odx_id: a})
+    if has_local:
+        db.update({OdxLinkId("X", [F_CONT, F_A]): local})
+    before = _snapshot(db)
+    a._resolve_odxlinks(db)
+    H.cover("resolved")
+    used = a.diag_layer_raw.resolved_with
+    seen_from_a = used.resolve_lenient(OdxLinkRef("X", [F_CONT, F_A]))
+    want = local if has_local else (shared if n_imports else None)
+    H.check("C10:imported-objects-are-visible-from-the-importing-layer-local-definitions-win", seen_from_a is want)
+    H.check("C10:frame-the-database-handed-in-is-unchanged", _same_view(db, before))
+    seen_from_sibling = db.resolve_lenient(OdxLinkRef("X", [F_CONT, F_B]))
+    # (what the importing layer defines itself is visible through the container fragment, as for every layer)
+    H.check("C10:a-sibling-layer-that-imports-nothing-does-not-see-the-imported-objects",
+            seen_from_sibling is (local if has_local else None))
